@@ -515,6 +515,86 @@ Proof.
 Qed.
 
 
+(* ---- the writes follow the rename discipline of Common/AtomFS.v ------------------ *)
+
+Definition DR (d : dir) (es : list ev) : Prop :=
+  disciplined_run str_eqb matched d (map (@fs_step B) es).
+
+Lemma apply_evs_run (es : list ev) : forall d : dir, apply_evs d es = AtomFS.run str_eqb d (map (@fs_step B) es).
+Proof. induction es as [|e es IH]; intros d; [reflexivity|]. cbn [apply_evs fold_left map AtomFS.run]. apply IH. Qed.
+
+Lemma DR_app d e1 e2 : DR d e1 -> DR (apply_evs d e1) e2 -> DR d (e1 ++ e2).
+Proof.
+  intros H1 H2. unfold DR. rewrite map_app. apply disciplined_run_app. split; [exact H1|].
+  rewrite <- apply_evs_run. exact H2.
+Qed.
+
+Lemma DR_harmless es : forall d, Forall harmless es -> DR d es.
+Proof.
+  induction es as [|e es IH]; intros d H; [exact I|]. inversion H as [|? ? He Hes]; subst.
+  split; [|apply (IH (apply_ev d e) Hes)].
+  destruct e; cbn [fs_step disciplined harmless] in *; try exact I; try exact He. contradiction.
+Qed.
+
+Lemma DR_save d s r evs : save_events save (c_keep cf) d s r = Some evs -> DR d evs.
+Proof.
+  unfold save_events. rewrite gcp. set (t := tmp_path (checkpoint_path base r)). set (X := remove_checkpoint_paths _ _).
+  intros H.
+  assert (evs = [ECr t; EWr t; ECl t (save s); ERn t (checkpoint_path base r)] ++ [EGl] ++ map (@ERm B) X ++ [ESaved r])
+    as -> by (injection H as <-; reflexivity).
+  apply DR_app.
+  - assert (Ht : matched t = false) by apply name_tmp.
+    unfold DR. cbn [map fs_step disciplined_run disciplined AtomFS.apply]. repeat split; try exact Ht.
+    intros _. rewrite !(lookup_set str_eqb str_eqb_spec), (eqb_refl str_eqb str_eqb_spec). discriminate.
+  - apply DR_harmless. constructor; [exact I|]. apply Forall_app. split; [|repeat constructor].
+    apply Forall_forall. intros e He. apply in_map_iff in He. destruct He as (x & <- & _). exact I.
+Qed.
+
+Lemma DR_rounds start : forall ks j d s tr s',
+  rounds step save cf start ks j d s = Some (tr, s') -> DR d tr.
+Proof.
+  induction ks as [|k ks IH]; intros j d s tr s' H; cbn [rounds] in H.
+  - injection H as <- _. exact I.
+  - destruct (if should_save_checkpoint (c_freq cf) k start then save_events save (c_keep cf) d (step s j) k else Some [])
+      as [sv|] eqn:Esv; [|discriminate].
+    set (e1 := ERound j :: sv ++ (if should_run_eval (c_evf cf) k start then [EPe k] else [])) in *.
+    destruct (rounds step save cf start ks (j + 1) (apply_evs d e1) (step s j)) as [[e2 s'']|] eqn:E2; [|discriminate].
+    assert (Htr : tr = e1 ++ e2) by (injection H as <- _; reflexivity). rewrite Htr. clear H Htr. apply DR_app.
+    + unfold e1. change (DR d ([ERound j] ++ sv ++ (if should_run_eval (c_evf cf) k start then [EPe k] else []))).
+      apply DR_app; [apply DR_harmless; repeat constructor|]. apply DR_app.
+      * change (apply_evs d [ERound j]) with d. destruct (should_save_checkpoint (c_freq cf) k start).
+        -- eapply DR_save; eassumption.
+        -- injection Esv as <-. exact I.
+      * apply DR_harmless. destruct (should_run_eval _ _ _); repeat constructor.
+    + eapply IH; exact E2.
+Qed.
+
+Lemma DR_run d tr s r : run step init save load tsv cf d = Some (tr, s, r) -> DR d tr.
+Proof.
+  unfold run. destruct (load_latest_select base (names d)) as [sel|]; [|discriminate].
+  destruct (match sel with None => Some ([], init) | Some (p, _) => _ end) as [[rd s0]|] eqn:Erd; [|discriminate].
+  destruct (rounds step save cf _ _ _ d s0) as [[tr0 s1]|] eqn:Er; [|discriminate].
+  intros H. injection H as <- _ _.
+  assert (Forall harmless rd /\ apply_evs d rd = d) as [Hrd Hrdd].
+  { destruct sel as [[p ?]|]; [|injection Erd as <- _; split; [constructor|reflexivity]].
+    destruct (lookup d p) as [[b|]|]; try discriminate. injection Erd as <- _. split; [repeat constructor|reflexivity]. }
+  change (DR d ([EMk; EGl] ++ rd ++ tr0 ++ final_events tsv (c_nev cf) s1
+                 (last (round_range (start_round_num (option_map snd sel)) R)
+                       (round_num_before_loop (start_round_num (option_map snd sel)))))).
+  apply DR_app; [apply DR_harmless; repeat constructor|]. change (apply_evs d [EMk; EGl]) with d.
+  apply DR_app; [now apply DR_harmless|]. rewrite Hrdd. apply DR_app; [eapply DR_rounds; eassumption|].
+  apply DR_harmless. apply final_harmless.
+Qed.
+
+(* hence, by tmp_then_rename_atomic, from ANY directory without torn checkpoint names *)
+Lemma run_never_tears d tr s r k : run step init save load tsv cf d = Some (tr, s, r) ->
+  no_torn_final str_eqb matched d -> no_torn_final str_eqb matched (apply_evs d (firstn k tr)).
+Proof.
+  intros Hrun Hd. rewrite apply_evs_run, <- firstn_map.
+  apply (tmp_then_rename_atomic str_eqb str_eqb_spec matched); [exact Hd|]. eapply DR_run. exact Hrun.
+Qed.
+
+
 (* ---- the statements used by Props/C09.v --------------------------------------- *)
 
 Lemma visible_complete d : reachable d -> no_torn_final str_eqb (ckpt_path_matches base) d.
